@@ -26,7 +26,7 @@ RULE = ("expressions derived from the translator's own grammar (numbers with d/e
 VARS = ["Tgas", "Te", "lnTe", "invT", "invTe", "T32", "sqrTgas", "user_x", "nH"]
 FUNCS = ["exp", "sqrt", "log", "log10"]
 SPECIES = {"H": "HI", "Hp": "HII", "Hm": "HM", "E": "EM", "H2": "H2I", "H2p": "H2II", "HE": "HEI", "HEp": "HEII", "HEpp": "HEIII",
-           "C": "CI", "O": "OI", "D": "DI"}
+           "C": "CI", "O": "OI", "D": "DI", "Cp": "CII", "Cpp": "CIII", "Op": "OII", "Opp": "OIII", "Cm": "CM"}
 
 
 # ------------------------------------------------------------------ reference Fortran reader
@@ -310,7 +310,7 @@ def run(argv):
     chk = Check("C12", tier, seed, MODULES, THEOREMS, RULE)
     chk.prove()
     rng = chk.rng
-    exprs = ["2**3**2", "-2.0**2", "Tgas**2**0.5", "3.0*-2.0**2", "n(idx_H2)*2.0", "n(idx_E)+1.0", "n(idx_H)*n(idx_Hp)",   # finding witnesses first
+    exprs = ["2**3**2", "-2.0**2", "Tgas**2**0.5", "3.0*-2.0**2", "n(idx_H2)*2.0", "n(idx_E)+1.0", "n(idx_H)*n(idx_Hp)", "n(idx_Cpp)*n(idx_Cp)", "n(idx_Opp)+n(idx_Cm)",   # finding witnesses first
              "3.92d-13*invTe**0.6353d0", "exp(-32.7d0+13.5d0*lnTe)", "1.d0/(1.d0+Tgas)", "sqrt(Tgas)*T32**(-0.5)",
              "Tgas**(1d0/3d0)", "2d0/3d0*Te", "1d0/2d0", "(3d0/4d0)*Tgas**(5d-1)", "7d0/2d0+1d1/4d0",
              "Tgas**(1/2)", "3/2*1.1d-10*Te", "Tgas**(-2/3)", "7/2/Tgas*1d-8", "2*3/4*Tgas", "Te*(5/2)+Tgas/2",
@@ -391,7 +391,11 @@ def run(argv):
         want_c = [krome_alias(x) for x in names_f]
         if [x.upper() for x in names_c] != [x.upper() for x in want_c]:
             wrong = sorted({f for f, c, w in zip(names_f, names_c, want_c) if c.upper() != w.upper()})
-            chk.violation({"kind": "abundance-ref", "names": wrong},
+            # an unresolved reference gives an undeclared macro (the build stops); a reference that lands on *another* species of
+            # the table compiles and silently reads the wrong abundance
+            others = {v.upper() for v in SPECIES.values()}
+            silent = any(c.upper() != w.upper() and c.upper() in others for c, w in zip(names_c, want_c))
+            chk.violation({"kind": "abundance-ref", "names": wrong, "lands_on_other_species": silent},
                           f"n(idx_X) references {wrong} become y[IDX_{names_c}] instead of the species' abundance variables {want_c}", input=case)
             continue
         for _ in range(3):
